@@ -104,6 +104,9 @@ func genC10(t *rapid.T) C10Case {
 	kinds := rhpc.Kinds[c.RPC]
 	c.Mut.Msg = rapid.IntRange(0, len(kinds)-1).Draw(t, "msg")
 	c.Mut.Kind = rapid.SampledFrom(kinds[c.Mut.Msg]).Draw(t, "kind")
+	if c.Mut.Kind == "stall" {
+		c.Mut.Kind = "close" // each stall costs the compressed timeout; the enumeration covers every message
+	}
 	c.Mut.A = rapid.IntRange(0, 5000).Draw(t, "a")
 	c.Mut.B = rapid.IntRange(0, 300).Draw(t, "b")
 	return c
@@ -178,6 +181,9 @@ func newC10Env(c C10Case, cs consensus.State) *c10Env {
 	e := &c10Env{cs: cs, signer: rhpc.KeySigner{K: c10RenterKey}}
 	e.prices = rhpc.SignPrices(c10HostKey, basePrices, cs.Index.Height)
 	e.host = rhpc.NewByzHost(c10HostKey, cs, e.prices, c.Mut)
+	if c.Mut.Kind == "stall" {
+		e.host.T.DeadlineScale = c10StallScale
+	}
 	n := mod(c.N, 401)
 	for i := 0; i < min(max(n, 3), rhpc.PoolSize); i++ {
 		s := rhpc.PoolSector(i)
@@ -255,6 +261,12 @@ func (e *c10Env) checkRevision(what string, prev, got types.V2FileContract, boun
 
 var c10Timeout = 30 * time.Second
 
+// stalled host: compressed client deadline clock and the watchdog beyond it
+const (
+	c10StallScale    = 400
+	c10StallWatchdog = 20 * time.Second
+)
+
 // lastGenericN is how many leaves / slices the last generic mutation could
 // choose from (the enumeration walks them all).
 var lastGenericN int
@@ -288,20 +300,13 @@ func runC10With(c C10Case, cs *kit.CaseStats, raw func(idx int, wire []byte) []b
 
 	var out c10Outcome
 	var env *c10Env
-	switch c.RPC {
-	case "form", "renew", "refresh-full", "refresh-partial":
-		var cleanup func()
-		var err error
-		env, out, cleanup, err = runC10Formation(ctx, c, raw)
-		if cleanup != nil {
-			defer cleanup()
-		}
-		if err != nil {
-			return fmt.Errorf("INFRA: %v", err)
-		}
-	default:
-		if c.Args != "" {
-			return runC10Args(ctx, c, cs)
+	formation := c.RPC == "form" || c.RPC == "renew" || c.RPC == "refresh-full" || c.RPC == "refresh-partial"
+	if !formation && c.Args != "" {
+		return runC10Args(ctx, c, cs)
+	}
+	exec := func(ctx context.Context) (env *c10Env, out c10Outcome, cleanup func(), err error) {
+		if formation {
+			return runC10Formation(ctx, c, raw)
 		}
 		// domain: sector-root and free ranges lie inside the contract
 		if c.RPC == "roots" && mod(c.N, 401) == 0 {
@@ -312,8 +317,47 @@ func runC10With(c C10Case, cs *kit.CaseStats, raw func(idx int, wire []byte) []b
 		}
 		env = newC10Env(c, baseState())
 		env.host.RawMutate = raw
-		defer env.host.Close()
-		out = runC10Plain(ctx, c, env)
+		return env, runC10Plain(ctx, c, env), env.host.Close, nil
+	}
+	if c.Mut.Kind == "stall" && raw == nil {
+		// the host neither answers nor closes; the call is made with a context
+		// WITHOUT deadline, so only the client's own default stream timeout
+		// (2 min, on a clock compressed 400x by the transport) can end it. On
+		// the unchanged tree the client always sets it: not returning within a
+		// watchdog ~65x that long is a violation.
+		type result struct {
+			env     *c10Env
+			out     c10Outcome
+			cleanup func()
+			err     error
+		}
+		done := make(chan result, 1)
+		go func() {
+			e, o, cl, err := exec(context.Background())
+			done <- result{e, o, cl, err}
+		}()
+		select {
+		case r := <-done:
+			if r.cleanup != nil {
+				defer r.cleanup()
+			}
+			if r.err != nil {
+				return fmt.Errorf("INFRA: %v", r.err)
+			}
+			env, out = r.env, r.out
+		case <-time.After(c10StallWatchdog):
+			return fmt.Errorf("%s: the host stalled at message %d without closing the stream and the call, made with a context without deadline, had not returned after %v although the client's default stream timeout (2 min, compressed to %v here) should have ended it", c.RPC, c.Mut.Msg, c10StallWatchdog, 2*time.Minute/c10StallScale)
+		}
+	} else {
+		var cleanup func()
+		var err error
+		env, out, cleanup, err = exec(ctx)
+		if cleanup != nil {
+			defer cleanup()
+		}
+		if err != nil {
+			return fmt.Errorf("INFRA: %v", err)
+		}
 	}
 	applied, differs, harness := env.host.Status()
 	lastGenericN = env.host.GenericN
@@ -935,7 +979,7 @@ func TestC10Enum(t *testing.T) {
 						continue
 					}
 					for vi, v := range variants {
-						if vi > 0 && (k == "rpc-error" || k == "close" || strings.HasSuffix(k, "-zero") || strings.HasSuffix(k, "-empty")) {
+						if vi > 0 && (k == "rpc-error" || k == "close" || k == "stall" || strings.HasSuffix(k, "-zero") || strings.HasSuffix(k, "-empty")) {
 							continue
 						}
 						if rpc == "write" && vi > 0 {
